@@ -273,6 +273,7 @@ func checkC08(c *Ctx) {
 	dir := filepath.Join(c.Scratch, "c08")
 	must(os.MkdirAll(dir, 0o755))
 	builtin := schema.BuiltinSchema()
+	noneSchema, _ := schema.Load("none")
 	type current struct {
 		start time.Time
 		data  []byte
@@ -343,6 +344,19 @@ func checkC08(c *Ctx) {
 				entry = "link"
 				must(os.WriteFile(filepath.Join(sub, "target"), data, 0o644))
 				must(os.Symlink(filepath.Join(sub, "target"), path))
+			case 2: // links that cannot even be stat'ed: to itself (ELOOP), through a regular file (ENOTDIR)
+				entry = "link-loop"
+				must(os.Symlink(path, path))
+			case 3:
+				entry = "link-through-file"
+				must(os.WriteFile(filepath.Join(sub, "target"), data, 0o644))
+				must(os.Symlink(filepath.Join(sub, "target", "inner.json"), path))
+			case 4: // a name too long for any file system behind the link
+				entry = "link-name-too-long"
+				must(os.Symlink(filepath.Join(sub, strings.Repeat("n", 300)), path))
+			case 5: // a directory under a Spec name
+				entry = "directory"
+				must(os.Mkdir(path, 0o755))
 			default:
 				must(os.WriteFile(path, data, 0o644))
 			}
@@ -367,7 +381,12 @@ func checkC08(c *Ctx) {
 				rr := cache.Refresh()
 				errs := cache.GetErrors()
 				devs := cache.ListDevices()
-				if (rerr != nil) != (len(errs[path]) > 0) || (rerr != nil && rr == nil) || (rerr == nil && len(devs) == 0) {
+				if entry == "directory" {
+					// a subdirectory is ignored by the scan whatever its name: no entry, no device
+					if len(errs) > 0 || len(devs) > 0 {
+						cs.Violation("no-error-entry", nil, fmt.Sprintf("a subdirectory with a Spec name is not ignored: errors %v, devices %v", errs, devs), nil)
+					}
+				} else if (rerr != nil) != (len(errs[path]) > 0) || (rerr != nil && rr == nil) || (rerr == nil && len(devs) == 0) {
 					cs.Violation("no-error-entry", nil, fmt.Sprintf("ReadSpec says %v but the cache has error entries %v, lists %v, Refresh()=%v (%s)", rerr, errs, devs, rr, how), map[string]any{"how": how, "input": clip(string(data), 20000)})
 				}
 				// device-name strings through the cache, whether or not it holds an error
@@ -404,6 +423,19 @@ func checkC08(c *Ctx) {
 				continue
 			}
 			call("schema.ValidateData", func() { builtin.ValidateData(data) })
+			// every schema configuration is an entry point: the do-nothing ones too
+			call("schema.ValidateData (none, nil)", func() {
+				noneSchema.ValidateData(data)
+				var nilSchema *schema.Schema
+				nilSchema.ValidateData(data)
+				nilSchema.ValidateReader(bytes.NewReader(data))
+				if raw != nil {
+					nilSchema.Validate(raw)
+					noneSchema.Validate(raw)
+				}
+				nilSchema.ValidateFile(path)
+				noneSchema.ValidateFile(path)
+			})
 			call("schema.ValidateReader", func() { builtin.ValidateReader(bytes.NewReader(data)) })
 			if raw != nil {
 				call("schema.Validate", func() { builtin.Validate(raw) })
